@@ -53,6 +53,12 @@ def check_maxvol_unpruned(ctx, rng, quick):
             n[-1] = int(rng.integers(12, 60))
         elif t % 3 == 1:
             n[0] = int(rng.integers(12, 60))
+        while int(np.prod(n)) > 900:            # the routine's candidate pairing is quadratic in k: keep k = size moderate
+            j_ = int(np.argmax([v if 0 < i_ < d - 1 or v <= 4 else 0 for i_, v in enumerate(n)]))
+            if n[j_] <= 1:
+                n[int(np.argmax(n))] //= 2
+            else:
+                n[j_] -= 1
         r = [1] + [int(v) for v in rng.integers(1, 4, size=d - 1)] + [1]
         for b in range(1, d):
             r[b] = max(1, min(r[b], int(np.prod(n[:b])), int(np.prod(n[b:]))))
